@@ -160,7 +160,8 @@ def make_program(rng, n):
         extra = rng.choice(["\n/// {@link Nope%d}\n/// @param q: MARKER_%d_ZQ\nstruct Extra%d {}\n", "\n/// {@link S\n/// @foo bar\ncustom Extra%d\n",
                             "\n/// @returns: nothing MARKER_%d_ZQ\nstruct Extra%d {}\n"])
         texts[0] += extra.replace("%d", str(n * 1000 + 999))
-    allow = rng.choice([[], [], ["All"], ["Deprecated"], ["BrokenDocLink", "IncorrectDocComment"], ["MalformedDocComment"]])
+    allow = rng.choice([[], [], ["All"], ["Deprecated"], ["BrokenDocLink", "IncorrectDocComment"], ["MalformedDocComment"], ["DuplicateFile"],
+                        ["all"], ["duplicatefile", "Deprecated"]])
     return texts, allow
 
 
@@ -284,6 +285,16 @@ def run_binary(ctx, count, idx):
                     continue
             if (res.status != 0) != (ne > 0):
                 ctx.violate("exit-status-vs-totals", "exit status %r with %d errors" % (res.status, ne), replay)
+            # independent of the library's own levels: a lint named on the command line leaves no trace at all
+            for a in allow:
+                names = ["DuplicateFile", "Deprecated", "BrokenDocLink", "IncorrectDocComment", "MalformedDocComment"] if a.lower() == "all" else \
+                    [n for n in ["DuplicateFile", "Deprecated", "BrokenDocLink", "IncorrectDocComment", "MalformedDocComment"] if n.lower() == a.lower()]
+                for lint_name in names:
+                    ctx.stats["command_line_suppressions_checked"] += 1
+                    marker = ("[%s]" % lint_name) if fmt == "human" else ('"error_code":"%s"' % lint_name)
+                    if marker in re.sub(r"\x1b\[[0-9;]*m", "", err):
+                        ctx.violate("suppressed-lint-leaves-trace:command-line:" + lint_name,
+                                    "-A %s was given but a %s diagnostic is on stderr (%s format)" % (a, lint_name, fmt), replay)
         finally:
             shutil.rmtree(d, ignore_errors=True)
     ctx.sample({"family": "binary", "file_names": FILE_NAMES[:6]}, limit=1)
